@@ -105,10 +105,10 @@ def derivation(text_or_node, defs, params):
         inner = derivation(node.args[0], defs, params)
         if inner is not None:
             return ((call_name(node) or '?') + ('.' + inner[0] if inner[0] else ''), inner[1])
-    if isinstance(node, ast.Call) and isinstance(node.func, ast.Attribute) and not node.args:
+    if isinstance(node, ast.Call) and isinstance(node.func, ast.Attribute) and all(isinstance(a, ast.Constant) for a in node.args) and not node.keywords:
         inner = derivation(node.func.value, defs, params)
         if inner is not None:
-            return ('.' + node.func.attr + '()' + inner[0], inner[1])
+            return ('.' + node.func.attr + '(' + ', '.join(repr(a.value) for a in node.args) + ')' + inner[0], inner[1])
     if isinstance(node, ast.IfExp):
         a = derivation(node.body, defs, params)
         b = derivation(node.orelse, defs, params)
